@@ -40,6 +40,8 @@ class Config:
 def make_line(I, cfg, tag, spec):
     """-> (line bytes, key bytes or None, key offset in line)"""
     lead, klen, trail = spec
+    if isinstance(lead, (bytes, tuple)) and (cfg.numeric or cfg.mode != 'trim'):
+        lead = 1          # literal wide blanks only make sense where the key is found by trimming
     if cfg.numeric:
         bs = [I.fresh_byte('%s_w%d' % (tag, i), WS) for i in range(lead)]
         key = [I.fresh_byte('%s_k%d' % (tag, i), [45, 48, 49, 50, 57] if i == 0 else [48, 49, 50, 57]) for i in range(klen)]
@@ -51,7 +53,7 @@ def make_line(I, cfg, tag, spec):
         return tuple(bs), (tuple(key) if klen else None), off
     if cfg.mode == 'trim':
         bs, key = sym_line(I, tag, spec, cfg.key_alphabet, cfg.inner_alphabet)
-        return bs, (key if klen else None), lead
+        return bs, (key if klen else None), (len(lead) if isinstance(lead, (bytes, tuple)) else lead)
     # group form: the text before `k=` may contain key letters (the key must be located by the
     # regex match, not by searching for its text)
     lead_alpha = [120, 32, 97] if cfg.mode == 'group' else [120, 32]
@@ -261,6 +263,35 @@ def observe(binary, src, code):
 
 
 RUST_WS = ' \t\x0b\x0c\r'      # char::is_whitespace below U+0080 (line breaks aside)
+WIDE_WS = ['\xe3\x80\x80', '\xc2\xa0', '\xe2\x80\x83']      # U+3000, U+00A0, U+2003 as UTF-8 bytes (text is handled as latin1)
+
+
+def rust_trim_span(ln):
+    """(a, e): byte offsets of str::trim() within the line (latin1 view of UTF-8 text)."""
+    a, e = 0, len(ln)
+    moved = True
+    while moved and a < e:
+        moved = False
+        if ln[a] in RUST_WS:
+            a += 1
+            moved = True
+        else:
+            for w in WIDE_WS:
+                if ln.startswith(w, a):
+                    a += len(w)
+                    moved = True
+    moved = True
+    while moved and e > a:
+        moved = False
+        if ln[e - 1] in RUST_WS:
+            e -= 1
+            moved = True
+        else:
+            for w in WIDE_WS:
+                if ln.endswith(w, a, e):
+                    e -= len(w)
+                    moved = True
+    return a, e
 
 
 def ref_expected(src, code):
@@ -295,9 +326,10 @@ def _ref_block(s, m, code):
                 a, e = mm.span('value') if mm.groupdict().get('value') is not None else mm.span()
                 keys.append((ln[a:e], off + a, off + e - 1))
         else:
-            t = ln.strip(RUST_WS)
+            ta, te = rust_trim_span(ln)
+            t = ln[ta:te]
             if t:
-                a = off + (len(ln) - len(ln.lstrip(RUST_WS)))
+                a = off + ta
                 keys.append((t, a, a + len(t) - 1))
         off += len(ln) + 1
     desc = attrs.get('keep-sorted', '').strip().lower() == 'desc'
@@ -339,10 +371,15 @@ def confirm(prop, binary, v, idx):
     return v
 
 
+WIDE = '\u3000'.encode('utf-8')      # IDEOGRAPHIC SPACE: whitespace for str::trim, three bytes wide
+
+
 def gen_tasks(rnd, configs, specs_for, nlines, per_cfg, min_keys=2):
     tasks = []
     for cfg in configs:
-        specs = specs_for(cfg)
+        specs = list(specs_for(cfg))
+        if cfg.mode == 'trim' and not cfg.numeric:
+            specs.append((WIDE, 1, 0))      # a key indented with multi-byte whitespace (byte column != char column)
         combos = []
         for n in range(1, nlines + 1):
             for ls in itertools.product(specs, repeat=n):
